@@ -161,6 +161,7 @@ Fixpoint pr_old (top : nat) (e : expr) : list tok :=
   | ESub a i => pr_old top a ++ [TLbrk] ++
       (match i with
        | ETuple l => match l with ENil => [TLpar; TRpar] | _ => seq_old top l end
+       | EBin BMul (ETuple l) b => seqt_old top l (pr_old top b)     (* index tuple with a mult_factor *)
        | _ => pr_old top i
        end) ++ [TRbrk]
   | ECall fn args => pr_old top fn ++ TLpar :: seq_old top args ++ [TRpar]
